@@ -483,3 +483,70 @@ Proof.
   cbv zeta. split; [vm_compute; reflexivity|]. split; [vm_compute; reflexivity|].
   intro H. inversion H as [|? ? H0 _]; subst. specialize (H0 0 (Nat.le_0_l _)). cbv in H0. lia.
 Qed.
+
+(* ---------------------------------------------------------------------------------------------- *)
+(* a literal pattern: no assumption about rstr_find is left.  When rstr_make answers with a struct rstr whose rs field is NULL (the
+   pattern is ^? \<? literal \>? $?: TrRstr.rstr_block), the translated rstr_find does not reach the untranslated rset_find, and
+   TrRstr.tr_rstr_find says what it computes (RstrDefs.rstr_find, the model C12 ties to its specification).  Composed with
+   C13_tr_lbuf_search (coq/TrSearchLit.v): the scan AND the matching are those of the C text; only rstr_make / rstr_free are oracles. *)
+From NV Require RstrDefs TrRstr TrSearchLit.
+
+Theorem C13_tr_lbuf_search_literal : forall ext F D m lb bln lbs lines br bo bl kb ko rb bs lit ic lbg le wb we dir r0 o0 xic vl m1,
+  lbuf_at m lb bln lbs lines -> lines_small lines -> lines_fit lines -> length lines + maxlen lines + 4 < F ->
+  dir_ok dir -> (Z.of_nat r0 <= 2147483647)%Z -> (Z.of_nat o0 < 2147483647)%Z ->
+  NoDup [br; bo; bl] -> (forall k, In k [br; bo; bl] -> ~ In k (lb :: bln :: lbs)) ->
+  nth_error m br = Some [VInt (Z.of_nat r0)] -> nth_error m bo = Some [VInt (Z.of_nat o0)] -> nth_error m bl = Some [vl] ->
+  cell_at m G_xic xic -> TrLbufBase.i32 xic ->
+  ext X_rstr_make [VPtr kb ko; VInt (if (xic =? 0)%Z then 0 else 1)%Z] (m ++ [[VUndef; VUndef]]) = Ok (VPtr rb 0%Z, m1) ->
+  S (length m) <= length m1 -> (forall k, k <= length m -> nth_error m1 k = nth_error (m ++ [[VUndef; VUndef]]) k) ->
+  nth_error m1 rb = Some (TrRstr.rstr_block bs ic lbg le wb we) -> str_at m1 bs lit -> nonul lit ->
+  length m < rb -> length m < bs ->
+  CLiteTac.int_ok ic -> CLiteTac.int_ok lbg -> CLiteTac.int_ok le -> CLiteTac.int_ok wb -> CLiteTac.int_ok we ->
+  length lit < F -> (Z.of_nat (length lit) <= 2147483647)%Z ->
+  let find := TrSearchLit.find_lit (TrRstr.rs_of lit ic lbg le wb we) in
+  let res := lbuf_search_g (fm_of find) lines (0 <? dir)%Z r0 o0 in
+  res <> SOOB ->
+  exists mf c, length c = 2 /\
+    smem m1 (length m) br bo bl mf c (sres_r res (Z.of_nat r0)) (sres_o res (Z.of_nat o0)) (sres_l res vl) /\
+    callx ext cprog F (S (S (S (S D)))) F_lbuf_search [VPtr lb 0%Z; VPtr kb ko; VInt dir; VPtr br 0%Z; VPtr bo 0%Z; VPtr bl 0%Z] m
+    = (do (_, m') <- ext X_rstr_free [VPtr rb 0%Z] mf; Ok (VInt (sres_ret res), m')).
+Proof. exact TrSearchLit.tr_lbuf_search_lit. Qed.
+Print Assumptions C13_tr_lbuf_search_literal.
+
+(* the matcher of that theorem is well-formed (so find_wf is not an assumption there), and it is the literal scan of rstr.c *)
+Theorem C13_tr_literal_matcher_wf : forall rs, find_wf (TrSearchLit.find_lit rs).
+Proof. exact TrSearchLit.find_lit_wf. Qed.
+Print Assumptions C13_tr_literal_matcher_wf.
+
+(* non-vacuity of C13_tr_lbuf_search_literal: its hypotheses hold of the memory, buffer and oracle that C13_tr_runs runs (pattern ab,
+   ignorecase on: xic = 1), with the struct rstr and the literal in the two blocks rstr_make appends behind the offs block *)
+Example C13_tr_literal_nonvacuous :
+  let l0 := [120; 97; 98; 32; 97; 98; 10]%N in let l1 := [97; 98; 10]%N in let ab := [97; 98]%N in
+  let m := ex_mem l0 l1 0 0 ab in let G := ex_G in
+  let m1 := (m ++ [[VUndef; VUndef]]) ++ [TrRstr.rstr_block (G + 10) 1 0 0 0 0; cstr_block (zb ab)] in
+  lbuf_at m G (G + 1) [G + 2; G + 3] [l0; l1] /\ lines_small [l0; l1] /\ lines_fit [l0; l1] /\
+  NoDup [G + 4; G + 5; G + 6] /\ (forall k, In k [G + 4; G + 5; G + 6] -> ~ In k (G :: (G + 1) :: [G + 2; G + 3])) /\
+  nth_error m (G + 4) = Some [VInt (Z.of_nat 0)] /\ nth_error m (G + 5) = Some [VInt (Z.of_nat 0)] /\ nth_error m (G + 6) = Some [VUndef] /\
+  cell_at m G_xic 1%Z /\ length m = G + 8 /\
+  ex_ext 0 ab X_rstr_make [VPtr (G + 7) 0%Z; VInt 1%Z] (m ++ [[VUndef; VUndef]]) = Ok (VPtr (G + 9) 0%Z, m1) /\
+  nth_error m1 (G + 9) = Some (TrRstr.rstr_block (G + 10) 1 0 0 0 0) /\ str_at m1 (G + 10) ab /\ nonul ab /\
+  (forall k, k <= length m -> nth_error m1 k = nth_error (m ++ [[VUndef; VUndef]]) k).
+Proof.
+  cbv zeta. split.
+  { constructor.
+    - eexists. split; [vm_compute; reflexivity|]. vm_compute. repeat split.
+    - eexists. split; [vm_compute; reflexivity|]. split; [vm_compute; lia|]. intros i Hi. cbn [length] in Hi.
+      destruct i as [|[|i]]; [vm_compute; reflexivity|vm_compute; reflexivity|lia].
+    - reflexivity.
+    - intros i Hi. cbn [length] in Hi. destruct i as [|[|i]]; [vm_compute; reflexivity|vm_compute; reflexivity|lia].
+    - vm_compute. repeat constructor; cbn; intuition discriminate.
+    - repeat constructor; unfold byte_ok; lia. }
+  split. { split; [cbn; lia|]. repeat constructor; cbn; lia. }
+  split. { apply Forall_cons; [|apply Forall_cons; [|apply Forall_nil]]; intros q Hq; cbn [length] in Hq;
+           do 8 (destruct q as [|q]; [cbv; lia|]); lia. }
+  split. { vm_compute. repeat constructor; cbn; intuition discriminate. }
+  split. { vm_compute. intros k [<-|[<-|[<-|[]]]]; intuition discriminate. }
+  repeat (split; [vm_compute; reflexivity|]).
+  split. { repeat constructor; unfold byte_ok; lia. }
+  intros k Hk. apply nth_error_app1. rewrite app_length. cbn [length]. lia.
+Qed.
